@@ -1,7 +1,7 @@
 /-
 C15 - merging parts keeps every note at the same musical time in disjoint voices.
 
-Model: PartituraModel/Model/Merge.lean (`merge_parts` after the repairs fixes/C15-1..4, `iter_parts`,
+Model: PartituraModel/Model/Merge.lean (`merge_parts` after the repairs fixes/C15-1..4, 7, 9, `iter_parts`,
 the sounding rows of `note_array`).  `image m L ps i p e` is where element `e` of the `i`-th part `p` ends
 up: `xform m (ctxAt L ps i p) e`, the loop state `ctxAt` being the multiplier `L / p.divs` and the sums, over
 the earlier parts, of their maximal voices / maximal staves / numbers of distinct staves.
@@ -194,7 +194,9 @@ theorem voices_disjoint_auto_partial (L : Nat) (ps : List APart)
 
 -- ================================================================ structural elements
 
-/-- the classes that are taken from the first part only, per mode, over the whole generated class table -/
+/-- the classes that are taken from the first part only, per mode, over the whole generated class table: the
+class tuples `el_to_discard` are those of the live source (Gen/C15Tables.lean, regenerated by
+harness/translate_c15.py on every run), closed under subclassing through the generated MRO table -/
 theorem discard_table :
     (Gen.classNames.filter fun n => discard .voice (classId n))
         = ["Page", "System", "Clef", "DaCapo", "Fine", "Fermata", "Ending", "Barline", "Measure",
